@@ -910,8 +910,42 @@ class C19(SimSpec):
             tr.paused.pause_points = pts
         return tr
 
+    @staticmethod
+    def after_completion_probe(tr):
+        """'in every state reachable by cluster operation sequences': on the finished simulation a task is handed straight to the
+        cluster (public Cluster.allocate_task_to_cluster) and the clock advanced into its execution: buffer, scheduler and telescope
+        are idle, the cluster is not - neither the cluster nor the simulation may say idle / finished"""
+        from topsim.core.task import Task
+        from . import trace as T
+        sim, env = tr.sim, tr.env
+        out = []
+        m = sim.cluster.machines[0]
+        task = Task('zzprobe_0_0', 0, 6, None, [], 0, 0, {}, None)
+        T.CURRENT = tr
+        try:
+            env.process(sim.cluster.allocate_task_to_cluster(task, m, [], None))
+            env.run(until=env.now + 2)
+            said_c, said_f = bool(sim.cluster.is_idle()), bool(sim.is_finished())
+            running = task.aft == -1 or task.aft > env.now
+            if running and said_c:
+                out.append(O.V('C19', 'cluster_query', f"after completion a task handed to the cluster is executing on {m.id} at {env.now} but Cluster.is_idle() is True"))
+            if running and said_f:
+                out.append(O.V('C19', 'finished_query', f"after completion a task handed to the cluster is executing on {m.id} at {env.now} (cluster busy, "
+                               f"buffer / scheduler / telescope idle) but Simulation.is_finished() is True"))
+            env.run(until=env.now + 8)
+            if not sim.cluster.is_idle() and task.aft != -1 and task.aft <= env.now - 1:
+                pass        # "idle only when": a late True is not claimed
+        except T.StepBudgetExceeded:
+            pass
+        finally:
+            T.CURRENT = None
+        tr.counts['after_completion_probe'] = 1
+        return out
+
     def violations(self, tr):
         out = super().violations(tr)
+        if tr.status == 'completed' and len(canonical_len(tr.sc)) % 3 == 0:
+            out += self.after_completion_probe(tr)
         p = getattr(tr, 'paused', None)
         if p is not None:
             for v in O.C19(p):
@@ -928,7 +962,7 @@ class C19(SimSpec):
         return all(c.get(k) for k in ('q_cluster_True', 'q_cluster_False', 'q_buffer_True', 'q_buffer_False'))
 
     def classes(self, tr):
-        return {k: v for k, v in tr.counts.items() if k.startswith('q_') or k in ('paused_variant', 'queries_at_pause_points')}
+        return {k: v for k, v in tr.counts.items() if k.startswith('q_') or k in ('paused_variant', 'queries_at_pause_points', 'after_completion_probe')}
 
     def summary(self, tr):
         s = super().summary(tr)
